@@ -5,9 +5,9 @@ From QV Require Import Base.Bytes.
 Local Open Scope N_scope.
 
 Inductive pobj :=
-| PNull | PBool (b : bool) | PInt (z : Z) | PReal (spelling : list N)
-| PStr (s : list N) | PName (n : list N)
-| PArr (l : list pobj) | PDict (d : list (list N * pobj)) | PRef (n g : N).
+| SpNull | SpBool (b : bool) | SpInt (z : Z) | SpReal (spelling : list N)
+| SpStr (s : list N) | SpName (n : list N)
+| SpArr (l : list pobj) | SpDict (d : list (list N * pobj)) | SpRef (n g : N).
 
 Inductive tok :=
 | StInt (z : Z) | StReal (sp : list N) | StStr (s : list N) | StName (n : list N)
@@ -202,18 +202,18 @@ Fixpoint parse_obj (fuel : nat) (s : list N) : option (pobj * list N) :=
               | Some (StInt g, r2) =>
                   match next_tok r2 with
                   | Some (StKw w, r3) =>
-                      if beq w kw_R && (0 <? z)%Z && (0 <=? g)%Z then Some (PRef (Z.to_N z) (Z.to_N g), r3)
-                      else Some (PInt z, r)
-                  | _ => Some (PInt z, r)
+                      if beq w kw_R && (0 <? z)%Z && (0 <=? g)%Z then Some (SpRef (Z.to_N z) (Z.to_N g), r3)
+                      else Some (SpInt z, r)
+                  | _ => Some (SpInt z, r)
                   end
-              | _ => Some (PInt z, r)
+              | _ => Some (SpInt z, r)
               end
-          | StReal sp => Some (PReal sp, r)
-          | StStr v => Some (PStr v, r)
-          | StName n => Some (PName n, r)
-          | StKw w => if beq w kw_true then Some (PBool true, r)
-                     else if beq w kw_false then Some (PBool false, r)
-                     else if beq w kw_null then Some (PNull, r)
+          | StReal sp => Some (SpReal sp, r)
+          | StStr v => Some (SpStr v, r)
+          | StName n => Some (SpName n, r)
+          | StKw w => if beq w kw_true then Some (SpBool true, r)
+                     else if beq w kw_false then Some (SpBool false, r)
+                     else if beq w kw_null then Some (SpNull, r)
                      else None
           | StArrO =>
               (fix arr (k : nat) (s1 : list N) (acc : list pobj) : option (pobj * list N) :=
@@ -221,7 +221,7 @@ Fixpoint parse_obj (fuel : nat) (s : list N) : option (pobj * list N) :=
                  | O => None
                  | S k' =>
                      match next_tok s1 with
-                     | Some (StArrC, r1) => Some (PArr (rev' acc), r1)
+                     | Some (StArrC, r1) => Some (SpArr (rev' acc), r1)
                      | _ => match parse_obj f s1 with
                             | Some (o, r1) => arr k' r1 (o :: acc)
                             | None => None
@@ -234,7 +234,7 @@ Fixpoint parse_obj (fuel : nat) (s : list N) : option (pobj * list N) :=
                  | O => None
                  | S k' =>
                      match next_tok s1 with
-                     | Some (StDictC, r1) => Some (PDict (rev' acc), r1)
+                     | Some (StDictC, r1) => Some (SpDict (rev' acc), r1)
                      | Some (StName key, r1) =>
                          match parse_obj f r1 with
                          | Some (o, r2) => dict k' r2 ((key, o) :: acc)
